@@ -113,8 +113,9 @@ def run_history(history):
             if call.get("reuse") is not None and regs[call["reuse"]] is not None:
                 reg = regs[call["reuse"]]
             else:
-                registry = stages.make_registry(tuple(call.get("kinds", ("IntString", "FloatString", "BooleanString"))),
-                                                datetime=call.get("datetime", False))
+                registry = None if call.get("defaultRegistry") else \
+                    stages.make_registry(tuple(call.get("kinds", ("IntString", "FloatString", "BooleanString"))),
+                                         datetime=call.get("datetime", False))
                 reg, _ = stages.build_registry([tuple(x) for x in call["inputs"]], registry, cmps_from(call["cmps"]),
                                                call.get("dictFields", ()), call.get("dictRegex", ()))
             regs.append(reg)
